@@ -225,6 +225,7 @@ class Session:
                                                             "mutate", "ping"))
             for kind in B_KINDS:
                 self.register("b", KINDS[kind]())
+            self.register("b", [0])          # B's object number len(B_KINDS): never lent, so a LOCAL_REF to it is stale
         except BaseException:
             self.close()
             raise
@@ -345,6 +346,36 @@ class Session:
             return "M%s" % self.key_of_pack[sender].get((str(val[0]), val[1], val[2]), "?")
         return "?%s" % (tag,)
 
+    # -- hand-made packages (label trees that did not come out of `_box`)
+    def raw_text(self, spec):
+        tag = spec[0]
+        if tag == "V":
+            return "V " + spec[1]
+        if tag == "T":
+            return "T( " + "".join(self.raw_text(x) + " " for x in spec[1]) + ")"
+        if tag == "L":
+            return "L%d" % spec[1]
+        if tag == "M":
+            return "M%d" % self.register("a", self.build(["o", "list", spec[1]]))
+        if tag == "?":
+            return "?%d" % spec[1]
+        raise ValueError(spec)
+
+    def raw_package(self, spec):
+        c = self.consts
+        tag = spec[0]
+        if tag == "V":
+            return (c.LABEL_VALUE, valtext.from_text(spec[1]))
+        if tag == "T":
+            return (c.LABEL_TUPLE, tuple(self.raw_package(x) for x in spec[1]))
+        if tag == "L":
+            return (c.LABEL_LOCAL_REF, self.pack_of["b"][spec[1]])
+        if tag == "M":
+            return (c.LABEL_REMOTE_REF, self.pack_of["a"][self.register("a", self.build(["o", "list", spec[1]]))])
+        if tag == "?":
+            return (spec[1], None)
+        raise ValueError(spec)
+
     def call(self, name, *args):
         """call B's function through its proxy; returns (result, label tree of the arguments, label tree of the reply)"""
         c = self.consts
@@ -379,6 +410,12 @@ class Session:
                 out = "%s => %s => %s => %s" % (self.ltext(req, "a"), self.last_seen, self.ltext(rep, "b"), self.describe(z, "a"))
                 del z, args
                 return out
+            if kind == "raw":
+                text = self.raw_text(op[1])
+                v = self.cb._unbox(self.brine.load(self.brine.dump(self.raw_package(op[1]))))
+                out = "%s => %s" % (text, self.describe(v, "b"))
+                del v
+                return out
             if kind == "forget":
                 self.call("forget")
                 return "ok"
@@ -406,6 +443,8 @@ class Session:
         if kind == "echo":
             args = tuple(self.build(s) for s in op[1])
             return "echo %s" % self.ptext(args)
+        if kind == "raw":
+            return "raw " + self.raw_text(op[1])
         if kind == "forget":
             return "forget"
         if kind == "tables":
@@ -459,6 +498,25 @@ def gen_spec(r, depth, names, made):
     return ["t", [gen_spec(r, depth - 1, names, made) for _ in range(n)]]
 
 
+STALE = len(B_KINDS)          # B's object that is never lent
+
+
+def raw_shapes(made):
+    """packages `_box` never produces: which error wins, and that nothing is created before a KeyError"""
+    out = [["T", [["?", 9], ["L", STALE]]],                       # unknown label in front of a stale reference: KeyError
+           ["T", [["L", STALE], ["?", 9]]],
+           ["T", [["?", 9], ["V", "I1"]]],                        # ValueError
+           ["T", [["M", "rawA"], ["T", [["L", STALE]]]]],        # fresh reference in front: KeyError, no proxy
+           ["T", [["T", [["V", "( I1 )"], ["T", [["L", STALE]]]]], ["M", "rawA"]]],
+           ["L", STALE], ["?", 77], ["?", 0],
+           ["T", [["M", "rawB"], ["M", "rawB"], ["V", "N"]]]]
+    for k in sorted(made):
+        out.append(["T", [["L", k], ["V", "( I1 )"], ["M", "rawA"], ["M", "rawA"]]])
+        out.append(["T", [["T", [["V", "I1"], ["L", k]]], ["?", 44]]])
+        out.append(["T", [["L", k], ["L", STALE], ["L", k]]])
+    return out
+
+
 def gen_conversation(r):
     ops, names, made, sent = [], [], set(), []
     for k in range(len(B_KINDS)):
@@ -469,6 +527,9 @@ def gen_conversation(r):
         x = r.below(100)
         if x < 8:
             ops.append(["forget"])
+            continue
+        if x >= 94:
+            ops.append(["raw", r.choice(raw_shapes(made))])
             continue
         if x < 14 and len(made) < len(B_KINDS) + 1:
             k = r.below(len(B_KINDS))
@@ -506,6 +567,8 @@ def corpus():
     out.append([["make", 0], ["make", 1], ["make", 0], ["echo", [["p", 0], ["t", [["p", 1], lst, ["p", 0]]]]],
                 ["send", True, [["p", 0], lst]], ["send", False, [["t", [["t", [["t", [dct, ["v", "I5"]]]]], lst]]]],
                 ["forget"], ["echo", [lst, dct, ["p", 1]]], ["tables"]])
+    out.append([["make", 0], ["make", 2]] + [["raw", sh] for sh in raw_shapes({0, 2})] + [["send", True, [["o", "list", "rawA"]]]]
+               + [["raw", sh] for sh in raw_shapes({0, 2})] + [["tables"]])
     return out
 
 
@@ -582,7 +645,9 @@ def correspondence(ctx):
               "namedtuples, frozenset/slice holding an object, iterators — sent kept twice, echoed, inside nested tuples, "
               "after forget, twice in one tuple; every plain type at its boundary forms; B's objects handed out and passed "
               "back) and seeded conversations (values nested to depth 3 mixing plain values, objects, subclass instances and "
-              "proxies; resending earlier argument tuples while their proxies live and after they died). Compared per step: "
+              "proxies; resending earlier argument tuples while their proxies live and after they died; hand-made packages with "
+              "stale local references and unknown labels in every order: which error wins, nothing created before a KeyError). "
+              "Compared per step: "
               "label tree decoded from the real frames vs. model `box`; arrived structure incl. which proxy object (serial) "
               "and its count vs. model `unbox`; final tables. Non-trivial = at least one reference travelled; distinct = "
               "distinct canonical output of the conversation with serials kept." % len(KINDS))
@@ -643,7 +708,7 @@ def correspondence(ctx):
             if len(c.samples) < 10 and (c.evaluations % 211 < 12):
                 c.samples.append(dict(tag=tag, conversation=" ; ".join(texts)[:500], outputs=" | ".join(real)[:700]))
     # statement-level checks that have no model side
-    for name, fn in (("mutation-through-proxy", extras_mutation), ("obtain-deliver", extras_copy), ("two-hops", extras_chain)):
+    for name, fn in all_extras():
         try:
             errs = fn()
         except Exception as ex:  # noqa
@@ -654,6 +719,18 @@ def correspondence(ctx):
             c.disagreements.append(dict(case=dict(kind="extra", name=name), impl=e, model="(statement-level observation)"))
     c.exhaustive = False
     return c
+
+
+def extras_overtake():
+    """a package that mixes a fresh object of a not-yet-seen class with a handed-back object whose last proxy dies at
+    once (run-time classes, real INSPECT; shared with C10)"""
+    import c10
+    return c10.extra_release_overtakes()
+
+
+def all_extras():
+    return (("mutation-through-proxy", extras_mutation), ("obtain-deliver", extras_copy), ("two-hops", extras_chain),
+            ("release-overtakes-reference", extras_overtake))
 
 
 def extras_chain():
@@ -808,7 +885,7 @@ def oracle_search(ctx, corr, broken):
         if sig in known:
             return None
         return dict(kind="history", ops=ops), msg, sig
-    for name, fn in (("mutation-through-proxy", extras_mutation), ("obtain-deliver", extras_copy), ("two-hops", extras_chain)):
+    for name, fn in all_extras():
         errs = fn()
         if errs and ("c03:" + name) not in known:
             return dict(kind="extra", name=name), "; ".join(errs), "c03:" + name
@@ -843,7 +920,7 @@ def oracle_search(ctx, corr, broken):
 
 def replay(case):
     if case.get("kind") == "extra":
-        fn = {"mutation-through-proxy": extras_mutation, "obtain-deliver": extras_copy, "two-hops": extras_chain}[case["name"]]
+        fn = dict(all_extras())[case["name"]]
         return dict(case=case, implementation=fn() or "holds")
     ops = case["ops"]
     texts, outs, errs = run_conversation(ops)
